@@ -640,12 +640,30 @@ def ewkbScan (bnd : BoundFn) (prefixSRID : Bool) (dest : Dest) (raw : Bytes) : R
     | .panic m => .panic m
   else scan bnd dest raw
 
-/-- `wkb.GeometryScanner.Scan`: on ErrNotWKBHeader retry with `data[4:]` (MySQL SRID prefix). -/
+/-- The caller's buffer after `wkbcommon.Scan` has returned: `hex.Decode(data, data[2:])` and
+    `hex.Decode(data, data)` decode IN PLACE, so the first bytes of the caller's slice now hold the
+    decoded binary (only the successful decodes matter: a hex error is never retried). -/
+def scanBuf (data : Bytes) : Bytes :=
+  if data.length < 5 then data else
+  let step1 : Bytes × Bytes :=   -- (the current `data` slice, the caller's buffer)
+    if data.head? = some 92 ∧ (data.drop 1).head? = some 120 then
+      (match hexDecode (data.drop 2) with
+       | some d => (d, d ++ data.drop d.length)
+       | none => (data, data))
+    else (data, data)
+  if step1.1.head? = some 48 ∧ ((step1.1.drop 1).head? = some 48 ∨ (step1.1.drop 1).head? = some 49) then
+    (match hexDecode step1.1 with
+     | some d2 => d2 ++ step1.2.drop d2.length
+     | none => step1.2)
+  else step1.2
+
+/-- `wkb.GeometryScanner.Scan`: on ErrNotWKBHeader retry with `data[4:]` (MySQL SRID prefix) —
+    `data` being the caller's slice, which the first attempt may have hex-decoded in place. -/
 def wkbScan (bnd : BoundFn) (dest : Dest) (raw : Bytes) : R G :=
   match scan bnd dest raw with
   | .ok (g, _) => .ok g
   | .err .notWKBHeader =>
-    (match sliceFrom raw 4 with
+    (match sliceFrom (scanBuf raw) 4 with
      | .ok rest =>
        (match scan bnd dest rest with
         | .ok (g, _) => .ok g
